@@ -8,38 +8,38 @@ VERIF = os.path.dirname(os.path.dirname(os.path.abspath(__file__)))
 
 CLAIMED = {
     "C08": dict(
-        technique="TLA+ abstract spec SemAbs model-checked by TLC + TLC trace validation of call/return histories recorded from the real semaphores (Call/Lin/Ret, deadline-aware)",
+        technique="TLA+ abstract spec SemAbs and fine-grained SemImpl (wait / wait_until / signal on the internal condition variable) model-checked by TLC + TLC trace validation of call/return histories recorded from the real semaphores (Call/Lin/Ret, deadline-aware)",
         text="TLC proves conservation, result<=>consumed and no-stuck-acquirer on the abstract semaphore spec for 3 actors; every recorded history of the real counting/binary/sliding semaphores (pika tasks + OS threads, hook-perturbed schedules) must be a behaviour of that spec, which settles 'for every schedule explored' rather than the single outcome a unit test asserts",
         note="sequential consistency in the model; histories are sampled (seeded), not exhaustive; timer wake-ups assumed at most 1 ms early",
         design="5/C08"),
     "C14": dict(
-        technique="TLA+ abstract spec StopAbs (handle algebra + request_stop/callback protocol) model-checked by TLC + TLC trace validation of sequential and concurrent histories from the real stop_source/stop_token/stop_callback",
-        text="TLC proves one-winner, callback-at-most-once, no-run-after-destructor, destructor-waits, source-count bookkeeping and registered-callback-runs (fair) on the abstract spec, and shows each named deviation violates them; recorded histories of the real objects (handle copy/move/assign/swap sequences; concurrent request_stop / callback construction / destruction incl. from inside callbacks, on pika tasks and OS threads, with delays injected at the st.* hooks between load and CAS) must be behaviours of the spec",
+        technique="TLA+ abstract spec StopAbs (handle algebra + request_stop/callback protocol) and fine-grained StopStateImpl (lock word load/CAS/spin, callback list, is_removed hand-shake) model-checked by TLC + TLC trace validation of sequential and concurrent histories from the real stop_source/stop_token/stop_callback",
+        text="TLC proves one-winner, callback-at-most-once, no-run-after-destructor, destructor-waits, source-count bookkeeping and registered-callback-runs (fair) on the abstract spec, shows each named deviation violates them, and proves the same on StopStateImpl for every interleaving of 2 (thorough: 3) requesters, registrations and destructors with four variants that re-create the repaired defects and a seeded change; recorded histories of the real objects (handle copy/move/assign/swap sequences; concurrent request_stop / callback construction / destruction incl. from inside callbacks, on pika tasks and OS threads, with delays injected at the st.* hooks between load and CAS) must be behaviours of the spec",
         note="sequential consistency; sampled schedules widened by hook delays, not exhaustive; handle objects themselves are used from one thread at a time (documented precondition)",
         design="5/C14"),
     "C17": dict(
-        technique="TLA+ fine-grained spec IndexQueueImpl (load/CAS steps) model-checked by TLC + TLC linearizability checking of recorded concurrent histories of all containers against the sequential TLA+ spec QueueAbs",
+        technique="TLA+ fine-grained specs IndexQueueImpl (load/CAS steps) and DequeImpl (Michael deque: anchor CAS, push/pop/stabilize) model-checked by TLC (thorough: inductive invariant of the index queue for arbitrary bounds with Apalache) + TLC linearizability checking of recorded concurrent histories of all containers against the sequential TLA+ spec QueueAbs",
         text="TLC proves exactly-once, partition and termination for the index queue's CAS protocol (3 threads, all interleavings) and checks every recorded concurrent history of the real index queue, Michael deque and the four lockfree back-ends (1-4 threads, hook-injected delays between anchor load and CAS) for linearizability against the sequential spec, including a quiescent drain that must return every remaining element exactly once",
-        note="sequential consistency in the model; histories sampled; moodycamel ConcurrentQueue black-box; no fine-grained model of Michael's deque yet",
+        note="sequential consistency in the model; histories sampled; moodycamel ConcurrentQueue black-box; the deque model does not re-use nodes (no ABA through the freelist)",
         design="5/C17"),
     "C06": dict(
-        technique="TLA+ abstract spec MutexCvAbs (owner/depth/critical-section data, Call/Lin/Ret) model-checked by TLC + TLC trace validation of lock/try_lock/try_lock_until/unlock histories from the real mutexes, with quiescence (lost hand-over) detection",
-        text="TLC checks mutual exclusion, only-owner-writes and hand-over liveness on the abstract spec; every recorded history of pika::mutex, timed_mutex, recursive_mutex and spinlock (tasks migrating while holding the lock, timed attempts blocked behind long critical sections, detected misuse) must be a behaviour of it: a try_lock that fails on a free mutex, a stale critical-section value, a missing error or a blocked lock() on a free mutex at quiescence is rejected",
+        technique="TLA+ abstract spec MutexCvAbs (owner/depth/critical-section data, Call/Lin/Ret) and fine-grained MutexImpl (owner, internal spinlock, cv queue, wake tokens) model-checked by TLC + TLC trace validation of lock/try_lock/try_lock_until/unlock histories from the real mutexes, with quiescence (lost hand-over) detection",
+        text="TLC checks mutual exclusion, only-owner-writes and hand-over liveness on the abstract spec; every recorded history of pika::mutex, timed_mutex, recursive_mutex and spinlock (tasks migrating while holding the lock, timed attempts blocked behind long critical sections, try_lock storms, detected misuse, all 8 policies in the C02 runs) must be a behaviour of it: a try_lock that fails on a free mutex, a stale critical-section value, a missing error or a blocked lock() on a free mutex at quiescence is rejected",
         note="sequential consistency; sampled schedules; spinlock-based locks are not held across yields (they never yield to the scheduler, documented)",
         design="5/C06"),
     "C07": dict(
-        technique="TLA+ abstract spec MutexCvAbs (waiting/wake sets, predicate flag, stop request) model-checked by TLC + TLC trace validation of wait/notify/stop histories from the real condition variables with an 'owed wake-up' quiescence rule",
-        text="TLC checks that a due wake-up is always delivered (fair) on the abstract spec; recorded histories of condition_variable and condition_variable_any (plain, predicate, timed, stop-token forms; pika tasks and OS threads; notifiers with and without the user lock; delays injected at the cv.* hooks between unlock and suspend) must be behaviours of the spec: a waiter that is owed a wake-up but stays blocked, a timeout reported for a notified waiter, a wrong predicate result or a return without the user lock is rejected",
+        technique="TLA+ abstract spec MutexCvAbs (waiting/wake sets, predicate flag, stop request) and fine-grained CvImpl (user lock vs. internal lock vs. queue, stop callback) model-checked by TLC + TLC trace validation of wait/notify/stop histories from the real condition variables with an 'owed wake-up' quiescence rule",
+        text="TLC checks that a due wake-up is always delivered (fair) on the abstract spec; recorded histories of condition_variable and condition_variable_any (plain, predicate, timed, stop-token forms; pika tasks and OS threads; notifiers with and without the user lock; delays injected at the cv.* hooks between unlock and suspend, user locks whose unlock returns slowly) must be behaviours of the spec: a waiter that is owed a wake-up but stays blocked, a timeout reported for a notified waiter, a wrong predicate result or a return without the user lock is rejected",
         note="sequential consistency; sampled schedules; spurious wake-ups accepted; one open finding (timed wait on a plain OS thread deadlocks when notified) is listed in known_findings.json and only exercised by dedicated runs",
         design="5/C07"),
     "C02": dict(
-        technique="TLA+ fine-grained spec WakeImpl of the thread state word / run queue / set_thread_state / set_active_state protocol model-checked by TLC (safety + liveness, broken variants must fail) + TLC trace validation of suspend/resume histories from the real runtime with widened resume-before-suspend windows and a pool-state quiescence watchdog",
-        text="TLC explores every interleaving of target, 2 workers, wakers (incl. a duplicate waker per round) and helper tasks on the state-word protocol and proves no-lost-wake-up, single-runner and termination, and shows that the two ways of breaking the helper's abort rule lose a wake-up; the real runtime is then driven through the same hand-off (bare suspend/resume, condition variables, semaphores) on 8 scheduling policies with delays injected at the hooks between unlock, context switch and store_state, and every history must satisfy the abstract rule that a task whose wake-up was issued runs again (a watchdog reads the pool's pending/active/staged/suspended counts)",
-        note="sequential consistency; the schedules of the real runtime are sampled (hook-widened), only the model is exhaustive; F is bound to the code through the hooked steps' effects (histories), not yet by step-by-step trace validation",
+        technique="TLA+ fine-grained spec WakeImpl of the thread state word / run queue / set_thread_state / set_active_state protocol model-checked by TLC (safety + liveness, broken variants must fail) + TLC trace validation of suspend/resume histories from the real runtime with widened resume-before-suspend windows and a pool-state quiescence watchdog + step-level TLC validation of the hooked loads/CASes/stores on a task's state word against WakeImpl (WakeStepTrace)",
+        text="TLC explores every interleaving of target, 2 workers, wakers (incl. a duplicate waker per round) and helper tasks on the state-word protocol and proves no-lost-wake-up, single-runner and termination, and shows that the two ways of breaking the helper's abort rule lose a wake-up; the real runtime is then driven through the same hand-off (bare suspend/resume, condition variables, semaphores) on 8 scheduling policies with delays injected at the hooks between unlock, context switch and store_state, and every history must satisfy the abstract rule that a task whose wake-up was issued runs again (a watchdog reads the pool's pending/active/staged/suspended counts); in addition every hooked step on a target's state word (observed state, tag, CAS outcome, helper decision) must be a step of WakeImpl, each actor at most one step ahead of its record - a trace that instead matches a variant TLC shows to lose a wake-up is reported as a violation",
+        note="sequential consistency; the schedules of the real runtime are sampled (hook-widened), only the model is exhaustive; step-level validation covers one target task per history on 4 policies; interrupt() as waker is judged through ThreadAbs",
         design="5/C02"),
     "C01": dict(
-        technique="TLA+ abstract task-ledger spec LifeAbs + fine-grained state-word spec WakeImpl model-checked by TLC; TLC trace validation of submit/enter/phase/exit records of random task forests on the real runtime; hook monitor for double execution",
-        text="TLC proves on WakeImpl that the pending->active CAS and the tagged store_state keep a task on one worker at a time and enter its body once even with stale queue entries, duplicate wake-ups and helper tasks; on the real runtime every task of random forests (yields, blocking, stealing, recycling of thread objects, 8 policies x 1-4 workers, restarts) must follow the ledger submitted -> entered exactly once -> phases one at a time -> exited before stop()/wait() return, with scheduling-loop and queue hooks perturbed, and a monitor on the scheduling loop's run hooks rejects any thread object executed by two workers simultaneously",
+        technique="TLA+ abstract task-ledger spec LifeAbs + fine-grained specs WakeImpl (state word) and YieldImpl (scheduling loop vs. yielding tasks) model-checked by TLC; TLC trace validation of submit/enter/phase/exit records of random task forests on the real runtime; hook monitor for double execution",
+        text="TLC proves on WakeImpl that the pending->active CAS and the tagged store_state keep a task on one worker at a time and enter its body once with duplicate wake-ups and helper tasks, and on YieldImpl that a task yielding with pending / pending_boost is never dropped by the scheduling loop's next-thread shortcut (the seeded variant is); on the real runtime every task of random forests (yields, back-off yields with varied max_busy_loop_count, blocking, stealing, recycling of thread objects, 8 policies x 1-4 workers, restarts) must follow the ledger submitted -> entered exactly once -> phases one at a time -> exited before stop()/wait() return, with scheduling-loop and queue hooks perturbed, and a monitor on the scheduling loop's run hooks rejects any thread object executed by two workers simultaneously",
         note="sequential consistency; real schedules are sampled; shared-priority / thread_queue_mc only black-box",
         design="5/C01"),
     "C05": dict(
@@ -80,12 +80,12 @@ CLAIMED = {
         design="5/C10"),
     "C15": dict(
         technique="TLA+ spec AffinityAbs (the binding predicate over a configuration and an outcome); TLC enumerates the configuration space (AffinityCases) and validates, as a trace, what the live runtime reports for every enumerated configuration",
-        text="TLC enumerates ~10k configurations (6 synthetic topologies x all process masks up to 6 PUs / windows and strides above x thread counts incl. |mask|+1 and the keywords cores/all x 5 binding modes x a second pool) and a hash-selected sample (all of 1/4 in thorough) is executed by the real runtime under HWLOC_SYNTHETIC, plus random taskset masks on the real machine with OS-reported affinity; every outcome must satisfy the TLA+ predicate: one PU per worker inside the mask, no sharing, reported = bound, exactly one pool per worker, impossible requests rejected, 'none' unbound",
+        text="TLC enumerates ~10k configurations (6 synthetic topologies x all process masks up to 6 PUs / windows and strides above x thread counts incl. |mask|+1 and the keywords cores/all x 5 binding modes x a second pool) and a hash-selected sample (all of 1/4 in thorough) plus every 'hard' case (SMT, holes in the mask, more workers than cores) is executed by the real runtime under HWLOC_SYNTHETIC, plus random taskset masks on the real machine with OS-reported affinity; every outcome must satisfy the TLA+ predicate: one PU per worker inside the mask, no sharing, reported = bound, exactly one pool per worker, impossible requests rejected, 'none' unbound",
         note="TLC is used as enumerator and as evaluator of the predicate (no interleavings involved); multi-socket/SMT binding only via the masks pika computes under synthetic hwloc; one open finding (bind=none oversubscription)",
         design="5/C15"),
     "C16": dict(
         technique="TLA+ spec ConfigAbs (resolution rule over sources, with named deviations); TLC enumerates every source/value assignment per setting (ConfigCases) and judges, as a trace, the value the live runtime actually uses for each",
-        text="TLC enumerates all 1292 assignments of {absent, valid A, valid B, invalid, keyword} to the sources (environment variable, PIKA_COMMANDLINE_OPTIONS, --pika:ini, specific option) of six settings; each case (quick: 600 sampled) is started for real and the value in use is read from the live runtime (worker count, scheduler, per-worker masks, stack size of a default task, config entry), not from the parsed options; TLC evaluates the resolution rule on every outcome and names the deviation that explains a rejected one; unknown options and non-pika argument pass-through are covered too",
+        text="TLC enumerates all 4703 assignments of {absent, valid A, valid B, invalid, keyword} to the sources (environment variable, specific option and --pika:ini entry inside PIKA_COMMANDLINE_OPTIONS, --pika:ini and specific option on the command line) of six settings; each case (quick: 900 sampled) is started for real and the value in use is read from the live runtime (worker count, scheduler, per-worker masks, stack size of a default task, config entry), not from the parsed options; TLC evaluates the resolution rule on every outcome and names the deviation that explains a rejected one; unknown options and non-pika argument pass-through are covered too",
         note="TLC is enumerator and evaluator of the rule (no interleavings); one setting varied at a time; two open findings (duplicate option across PIKA_COMMANDLINE_OPTIONS and command line aborts; invalid stack size silently ignored)",
         design="5/C16"),
     "C18": dict(
@@ -94,7 +94,7 @@ CLAIMED = {
         note="sequential behaviour only (wrappers are not shared between threads); equivalence of erased and unerased pipelines is covered with C03",
         design="5/C18"),
     "C20": dict(
-        technique="TLA+ fine-grained spec MpiPollImpl (parallel request/callback vectors, chunked MPI_Testsome, compaction) and ActivityImpl model-checked by TLC + abstract spec MpiAbs with TLC trace validation of post/send/signal/wait histories from the real MPI adaptor",
+        technique="TLA+ fine-grained specs MpiPollImpl (parallel request/callback vectors, chunked MPI_Testsome, compaction), MpiWaitImpl (ready queue drained by any worker vs. the activity count) and ActivityImpl model-checked by TLC + abstract spec MpiAbs with TLC trace validation of post/send/signal/wait histories from the real MPI adaptor",
         text="TLC proves on MpiPollImpl that a callback runs at most once and only for a request MPI reported complete, and that every request is eventually signalled, for all interleavings of adds, completions, chunked polls and compaction (dropping the chunk base breaks it); real single-rank histories across all completion modes and 1-64 outstanding receives (below, at and above the 32-request polling chunk) must be behaviours of MpiAbs: every receiver signalled exactly once, only after its message was sent, with the full payload visible, and pika::wait() returning only after all requests posted before it were signalled",
         note="one MPI implementation and one rank; MPI error paths are not exercised; sequential consistency",
         design="5/C20"),
@@ -105,8 +105,8 @@ CLAIMED = {
         note="the context-switch assembly and stack memory are exercised along generated behaviours, not proved; one open finding (FP control state not saved by the Linux context switch) is exercised by dedicated runs only",
         design="5/C12"),
     "C03": dict(
-        technique="TLA+ denotational spec SenderSem (completion-signal semantics of the adaptors) whose terms and denotations TLC enumerates (SenderCases) and replays on the real adaptors; fine-grained spec SharedStateImpl of the split/ensure_started shared state (flag, lock, continuation list) model-checked by TLC",
-        text="model-based testing in the spec->implementation direction: TLC enumerates all 1228 sender terms up to depth 3 over value/error/stopped leaves and then/let_value/let_error/continues_on/ensure_started/split (1 and 2 consumers)/drop_operation_state/when_all with the set of completion signals the spec admits; every term is built from type-erased stages and run on the real adaptors with leaves completing inline, from another thread or on the pool, and the connected receiver must see exactly one signal, on an admitted channel, with the admitted payload, with every payload object destroyed exactly once; TLC proves on SharedStateImpl that a continuation added concurrently with the predecessor's completion is run exactly once under every interleaving (and that publishing the flag after the lock hand-shake loses it), and the shared-state terms are re-run hundreds of times with the consumer's start swept across the predecessor's completion and delays injected at the ss.* hooks",
+        technique="TLA+ denotational spec SenderSem (completion-signal semantics of the adaptors) whose terms and denotations TLC enumerates (SenderCases) and replays on the real adaptors; fine-grained specs SharedStateImpl (split/ensure_started shared state) and WhenAllImpl (when_all operation state) model-checked by TLC; step-level TLC validation of the shared state's hooked steps (SharedStateStepTrace)",
+        text="model-based testing in the spec->implementation direction: TLC enumerates all 1228 sender terms up to depth 3 over value/error/stopped leaves and then/let_value/let_error/continues_on/ensure_started/split (1 and 2 consumers)/drop_operation_state/when_all with the set of completion signals the spec admits; every term is built from type-erased stages and run on the real adaptors with leaves completing inline, from another thread or on the pool, and the connected receiver must see exactly one signal, on an admitted channel, with the admitted payload, with every payload and error object destroyed exactly once; TLC proves on SharedStateImpl that a continuation added concurrently with the predecessor's completion is run exactly once under every interleaving (and that publishing the flag after the lock hand-shake loses it), the shared-state terms are re-run hundreds of times with the consumer's start swept across the predecessor's completion, when_all terms with two failing inputs thousands of times with simultaneous completions, and the hooked steps of the real shared state (flag, lock hand-shake, continuation store, deliveries) are validated by TLC as SharedStateImpl's steps in SharedStateImpl's order",
         note="sequential consistency in the model; schedules of the real adaptors are sampled; terms up to depth 3 with one value type; stop requests travelling upstream through stop tokens are not part of the terms",
         design="5/C03"),
 }
